@@ -15,7 +15,7 @@ TIERS = {
     'C09': {'quick': dict(runs=12000, batch=100, wall=600), 'thorough': dict(runs=240000, batch=400, wall=5400)},
     'C10': {'quick': dict(runs=24000, batch=200, wall=600), 'thorough': dict(runs=480000, batch=800, wall=5400)},
     'C11': {'quick': dict(runs=24000, batch=200, wall=600), 'thorough': dict(runs=480000, batch=800, wall=5400)},
-    'C13': {'quick': dict(runs=12000, batch=100, wall=600), 'thorough': dict(runs=240000, batch=400, wall=5400)},
+    'C13': {'quick': dict(runs=8000, batch=100, wall=600), 'thorough': dict(runs=160000, batch=400, wall=5400)},
     'C14': {'quick': dict(runs=24000, batch=200, wall=600), 'thorough': dict(runs=480000, batch=800, wall=5400)},
     'C16': {'quick': dict(runs=16000, batch=125, wall=600), 'thorough': dict(runs=320000, batch=500, wall=5400)},
     'C19': {'quick': dict(runs=24000, batch=200, wall=600), 'thorough': dict(runs=480000, batch=800, wall=5400)},
